@@ -262,6 +262,8 @@ def render_module(mod, bodies=None, opaque_body=None, extra_items=None):
         elif kind == "impl":
             out += render_impl(it, it["impls"][entry[2]], bodies)
         out += "\n"
+    for r in mod.get("raw_items", []):
+        out += "    " + r + "\n"
     if extra_items:
         out += extra_items(mod)
     out += "}\n"
